@@ -1,3 +1,66 @@
-From TM Require Import Base Frame.
-Theorem C08_placeholder : fc_value (fc_new 1) = 1.
+(* C08 -- only well-formed PDUs are accepted, and each decodes to its unique meaning.
+   Property theorems only; proofs are in proofs/PduDecode.v, PduEncode.v, PduReencode.v.
+   [wf_req] / [wf_rsp] (proofs/Spec.v) are the independent classifiers written by shape:
+   Some v = well-formed with meaning v, None = ill-formed.  [verdict spec got] says: if the spec
+   accepts with v the decoder returns exactly Val v, otherwise it returns an error Fail k --
+   in particular never Panic. *)
+From Coq Require Import Lia.
+From TM Require Import Base Frame Pdu Spec PduDecode PduEncode PduReencode.
+
+Theorem C08_request_accept_exactly_wf : forall bs, verdict (wf_req bs) (dec_req bs).
+Proof. exact req_wf_dec. Qed.
+Theorem C08_response_accept_exactly_wf : forall bs, verdict (wf_rsp bs) (dec_rsp bs).
+Proof. exact rsp_wf_dec. Qed.
+Theorem C08_request_accept_iff : forall bs, (exists v, dec_req bs = Val v) <-> (exists v, wf_req bs = Some v).
+Proof. exact req_accept_iff_wf. Qed.
+Theorem C08_response_accept_iff : forall bs, (exists v, dec_rsp bs = Val v) <-> (exists v, wf_rsp bs = Some v).
+Proof. exact rsp_accept_iff_wf. Qed.
+
+(* exception PDUs: first byte >= 0x80 and a code byte; the meaning is (first - 0x80, code) *)
+Theorem C08_exception_shape : forall bs,
+  dec_exc bs = match bs with
+               | [] => Fail KUnexpectedEof
+               | f :: r => if f <? 0x80 then Fail KInvalidData else
+                           match r with
+                           | [] => Fail KUnexpectedEof
+                           | c :: _ => Val {| exr_function := fc_new (f - 0x80); exr_exception := ex_new c |}
+                           end
+               end.
+Proof. exact dec_exc_char. Qed.
+
+(* no accepted PDU of a modelled function code is a proper prefix of another accepted PDU *)
+Theorem C08_request_prefix_free : forall bs v x,
+  wf_req bs = Some v -> modelled_fc (hd 0 bs) = true -> x <> [] -> wf_req (bs ++ x) = None.
+Proof. exact wf_req_prefix_free. Qed.
+Theorem C08_response_prefix_free : forall bs v x,
+  wf_rsp bs = Some v -> modelled_fc (hd 0 bs) = true -> x <> [] -> wf_rsp (bs ++ x) = None.
+Proof. exact wf_rsp_prefix_free. Qed.
+
+(* function codes the library does not model are accepted as raw custom data, unchanged *)
+Theorem C08_custom_request_unchanged : forall fc d,
+  fc < 0x80 -> modelled_fc fc = false -> dec_req (fc :: d) = Val (ReqCustom fc d).
+Proof. exact custom_request_unchanged. Qed.
+Theorem C08_custom_response_unchanged : forall fc d,
+  modelled_fc fc = false -> dec_rsp (fc :: d) = Val (RspCustom fc d).
+Proof. exact custom_response_unchanged. Qed.
+Theorem C08_request_codes_below_0x80 : forall fc d v, 0x80 <= fc -> dec_req (fc :: d) <> Val v.
+Proof. exact request_codes_below_0x80. Qed.
+
+(* whatever is accepted (within the 253-byte PDU limit) re-encodes to a PDU that decodes to the same value *)
+Theorem C08_request_reencode : forall bs v, dec_req bs = Val v -> len bs <= 253 ->
+  dec_req (spec_req_pdu v) = Val v.
+Proof. exact req_reencode. Qed.
+Theorem C08_response_reencode : forall bs v, dec_rsp bs = Val v -> len bs <= 253 ->
+  dec_rsp (spec_rsp_pdu v) = Val v.
+Proof. exact rsp_reencode. Qed.
+
+(* non-vacuity: concrete PDUs on both sides of the classifier, incl. the repaired findings F1/F2 *)
+Example C08_ex_accept : dec_req [0x0F; 0; 5; 0; 10; 2; 0xFF; 0x03] =
+  Val (ReqWriteMultipleCoils 5 [true; true; true; true; true; true; true; true; true; true]).
+Proof. reflexivity. Qed.
+Example C08_ex_reject_F1 : dec_req [0x0F; 0; 0; 0xFF; 0xFF; 1; 0xAA] = Fail KInvalidData.
+Proof. reflexivity. Qed.
+Example C08_ex_reject_F2 : dec_req [0x10; 0; 0; 0x80; 0; 0] = Fail KInvalidData.
+Proof. reflexivity. Qed.
+Example C08_ex_rsp : dec_rsp [0x11; 3; 9; 0xFF; 7] = Val (RspReportServerId 9 true [7]).
 Proof. reflexivity. Qed.
